@@ -17,6 +17,7 @@ const (
 
 func init() {
 	register("C13", func(c *core.Ctx, tier string) {
+		connWriteEffects(c, "C13.9")
 		errPolarity(c, "C13.8", "webtransport")
 		c13NoPartialFrames(c)
 		c13WholePayload(c)
